@@ -643,7 +643,7 @@ theorem igReady_conf (cfg : Cfg) (hl : cfg.lateJoin = false) : Conf (igReady cfg
         revert hdev
         generalize ((Engine.cohort s a).all fun x => g.arrived.contains x) = c
         generalize lateAt s n a g.arrived work = l
-        generalize (decide (n.ins.length ≤ 1) || !upstreamLive p s n.id work g.arrived) = u
+        generalize ((s.tagsOf a).isEmpty || !upstreamLive p s n.id work g.arrived) = u
         cases c <;> cases l <;> cases u <;> simp
 
 theorem joinOf_admissible (cfg : Cfg) : (joinOf cfg).Admissible := by
